@@ -41,7 +41,7 @@ Theorem C03_const_expr_sem : ∀ t v x, t ∈ const_types → sem_cond v x (cons
 Proof. exact const_expr_sem. Qed.
 Print Assumptions C03_const_expr_sem.
 (* roundtrip_equiv, one gate of the assign style: the node the reader makes for the emitted expression carries the gate's
-   function.  Missing for the full statement: the module-level composition (the relabel of that node to the lvalue,
+   function.  (The module-level composition is C03_roundtrip_equiv_bbfree below.)  Not in this lemma: the composition (the relabel of that node to the lvalue,
    declarations, primitive instances, blackbox instances, output marking) *)
 Theorem C03_roundtrip_gate_partial : ∀ k st t f r st' n, t ∈ gate_types → (t = Buf ∨ t = Not → r = []) → NoDup (f :: r) →
   c_cond k st (beh_expr t f r) = Ok (st', n) →
@@ -50,7 +50,7 @@ Proof. exact roundtrip_gate_expr. Qed.
 Print Assumptions C03_roundtrip_gate_partial.
 (* roundtrip_identical, one statement of the primitive style: reading `<type> g_k(n, f1, .., fk)` (distinct operands, as the
    writer emits them) makes n a node of exactly that type over exactly these operands, creates placeholder buffers for
-   operands that are no nodes yet and touches nothing else.  Missing for the full statement: the fold over all statements
+   operands that are no nodes yet and touches nothing else.  (The fold is C03_roundtrip_identical_bbfree below.)  Not in this lemma: the fold over all statements
    (placeholders are retyped by their own statement, inputs keep their type), success of every add/connect check for
    lint-clean circuits, and the final comparison of the two maps *)
 Theorem C03_prim_instance_exact_partial : ∀ k t g nm n fi g', prim_instance k t g (nm, CPos (n :: fi)) = Ok g' → NoDup fi → fi ≠ [] →
